@@ -46,6 +46,10 @@ pub enum Step {
     /// two `sleep(d)` of the same task with the same deadline, both polled once (the first registers first); the first
     /// is dropped, the second is awaited
     TwinDrop(u64),
+    /// a disarmed timer (`sleep(Duration::MAX)`), polled once, then armed with reset to the absolute instant `t_abs`
+    /// (from a small set, so that several tasks of a module arm theirs to the same deadline); with `give_up` the task
+    /// waits only half of the remaining time and drops it
+    FarArmed { t_abs: u64, give_up: bool },
     /// pinned `sleep(d1)`, polled once, then reset to now + d2 and awaited
     Reset { d1: u64, d2: u64 },
     /// pinned `sleep(d1)`, polled once; the task then waits `wait >= d1` for another timer, so the deadline is
@@ -191,6 +195,22 @@ async fn run_script(module: usize, task: usize, steps: Vec<Step>, alt: bool, mut
                 let s = pin!(sleep(dur(*d)));
                 let _ = futures::poll!(s);
                 0
+            }
+            Step::FarArmed { t_abs, give_up } => {
+                let mut far = pin!(sleep(Duration::MAX));
+                let _ = futures::poll!(far.as_mut());
+                far.as_mut().reset(SimTime::from_duration(Duration::from_nanos(*t_abs)));
+                if *give_up {
+                    let half = t_abs.saturating_sub(now_ns()) / 2;
+                    tokio::select! {
+                        biased;
+                        () = sleep(dur(half)) => 0,
+                        () = &mut far => 1,
+                    }
+                } else {
+                    far.await;
+                    0
+                }
             }
             Step::TwinDrop(d) => {
                 let mut first = Box::pin(sleep(dur(*d)));
@@ -431,6 +451,14 @@ fn interpret(mi: usize, ti: usize, task: &Task, start: u64) -> Vec<LogRec> {
                         now += d;
                         0
                     }
+                    Step::FarArmed { t_abs, give_up } => {
+                        if *give_up {
+                            now += t_abs.saturating_sub(now) / 2;
+                        } else {
+                            now = now.max(*t_abs);
+                        }
+                        0
+                    }
                     Step::Reset { d2, .. } => {
                         now += d2;
                         0
@@ -663,6 +691,7 @@ pub fn gen_task_with(rng: &mut Rng, max_steps: usize, allow_recv: bool) -> Task 
                 }
             }
             8 if rng.chance(1, 3) => steps.push(Step::TwinDrop(d(rng))),
+            8 if rng.chance(1, 2) => steps.push(Step::FarArmed { t_abs: *rng.pick(&[2000 * MS, 5000 * MS, 10_000 * MS, 20_000 * MS]), give_up: rng.chance(1, 2) }),
             8 => steps.push(Step::PollDrop(if rng.chance(1, 6) { u64::MAX } else { d(rng) })),
             9 => {
                 if rng.chance(1, 2) {
@@ -813,6 +842,7 @@ pub fn cmd(args: &Args) -> Report {
                     Step::Select { .. } => "steps_select",
                     Step::PollDrop(_) => "steps_poll_then_drop",
                     Step::TwinDrop(_) => "steps_twin_timers_first_dropped",
+                    Step::FarArmed { .. } => "steps_far_future_sleep_armed_by_reset",
                     Step::Reset { .. } => "steps_reset",
                     Step::ResetLate { .. } => "steps_reset_after_deadline",
                     Step::IntervalNew { .. } => "steps_interval_new",
